@@ -106,6 +106,53 @@ def generate(repo):
     if ast.unparse(calls[0]) != 'sap.dequeue(miu_size, icv_size=0)' or ast.unparse(calls[1]) != 'sap.dequeue(miu_size, icv_size)':
         raise Unsupported('collect: sap.dequeue call shape changed')
 
+    # ---------------- the ICV allowance: where icv_size comes from and what every dequeue call site passes on
+    TS = {'self.sec.icv_size': 'sec_icv', 'self.sec': 'sec_on', "send_pdu.name in ('UI', 'I')": 'ui_or_i'}
+    a = expect('collect: icv_size assignment', nodes(col, ast.Assign, lambda n: targets(n, 'icv_size')), 1)[0]
+    out.append(kernel('gen_c10_icv_size', a.value, [('sec_on', 'bool'), ('sec_icv', I)], TS))
+    enc = expect('collect: encryption tests', in_order(nodes(col, ast.If, lambda n: 'self.sec' in ast.unparse(n.test))), 2)
+    for i, n in enumerate(enc):
+        if ast.unparse(n.body[0]) != 'send_pdu = encrypt(send_pdu)':
+            raise Unsupported('collect: encryption statement changed')
+        out.append(kernel('gen_c10_encrypt_cond%d' % (i + 1), n.test, [('sec_on', 'bool'), ('ui_or_i', 'bool')], TS))
+    sapdq = find(llc, 'ServiceAccessPoint.dequeue')
+    tcodq = find(tco, 'TransmissionControlObject.dequeue')
+    ldldq = find(tco, 'LogicalDataLink.dequeue')
+    dlcdq = find(tco, 'DataLinkConnection.dequeue')
+    rawdq = find(tco, 'RawAccessPoint.dequeue')
+    for d in (sapdq, find(llc, 'ServiceDiscovery.dequeue'), ldldq, dlcdq, rawdq):
+        if [x.arg for x in d.args.args] != ['self', 'miu_size', 'icv_size'] or d.args.defaults:
+            raise Unsupported('%s: signature changed' % d.name)
+
+    def passed(call, callee, pname):
+        """the expression a call passes for parameter pname of callee (its default if the call omits it)"""
+        params = [x.arg for x in callee.args.args if x.arg != 'self']
+        dflt = dict(zip(params[len(params) - len(callee.args.defaults):], callee.args.defaults))
+        got = dict(zip(params, call.args))
+        for k in call.keywords:
+            if k.arg is None or k.arg in got:
+                raise Unsupported('call argument form')
+            got[k.arg] = k.value
+        if pname in got:
+            return got[pname]
+        if pname in dflt:
+            return dflt[pname]
+        raise Unsupported('call does not pass %s' % pname)
+
+    def only_call(fn, what):
+        return expect(what, nodes(fn, ast.Call, lambda n: isinstance(n.func, ast.Attribute) and n.func.attr == 'dequeue'), 1)[0]
+
+    sites = [('gen_c10_icv_first', calls[0], sapdq), ('gen_c10_icv_agg', calls[1], sapdq),
+             ('gen_c10_icv_sap', only_call(sapdq, 'ServiceAccessPoint.dequeue: socket.dequeue call'), ldldq),
+             ('gen_c10_icv_ldl', only_call(ldldq, 'LogicalDataLink.dequeue: super().dequeue call'), tcodq),
+             ('gen_c10_icv_dlc', only_call(dlcdq, 'DataLinkConnection.dequeue: super().dequeue call'), tcodq),
+             ('gen_c10_icv_raw', only_call(rawdq, 'RawAccessPoint.dequeue: super().dequeue call'), tcodq)]
+    for name, call, callee in sites:
+        out.append(kernel(name, passed(call, callee, 'icv_size'), [('icv_size', I)], {}))
+        m = ast.unparse(passed(call, callee, 'miu_size'))
+        if m != ('None' if name == 'gen_c10_icv_raw' else 'miu_size'):
+            raise Unsupported('%s: miu_size argument changed' % name)
+
     # ---------------- ServiceDiscovery.dequeue
     sdq = find(llc, 'ServiceDiscovery.dequeue')
     S = {'len(self.dmpdu)': 'n_dm'}
@@ -126,6 +173,9 @@ def generate(repo):
     asg = expect('TCO.dequeue: assignments to pdu_size', in_order(nodes(tdq, ast.Assign, lambda n: targets(n, 'pdu_size'))), 2)
     out.append(kernel('gen_c10_size_ui_i', asg[0].value, [('pdu_len', I), ('icv_size', I)], Q))
     out.append(kernel('gen_c10_size_other', asg[1].value, [('pdu_len', I)], Q))
+    szif = expect('TCO.dequeue: UI/I test', nodes(tdq, ast.If, lambda n: ast.unparse(n.test) == "send_pdu.name in ('UI', 'I')"), 1)[0]
+    if szif.body != [asg[0]] or szif.orelse != [asg[1]]:
+        raise Unsupported('TCO.dequeue: pdu_size computation changed')
     ifs = in_order(nodes(tdq, ast.If, lambda n: 'miu_size' in ast.unparse(n.test)))
     expect('TCO.dequeue: if tests on miu_size', ifs, 1)
     t = ifs[0].test
